@@ -154,6 +154,7 @@ KindChoices ==
     CASE Suite \in {"c17", "c17q", "c17l", "crc"} -> [Clients -> {"exec"}]
       [] Suite = "c18"  -> Others(IF Gaps = "all" THEN AllKinds \ {"exec"} ELSE RepKinds \ {"exec"})
       [] Suite = "c18s" -> Others(SmallKinds)
+      [] Suite = "c18l" -> Others({"hostile", "disc_mid", "trunc1", "status"})
       [] OTHER -> [Clients -> AllKinds]
 \* With a free arrival order exec clients are interchangeable: only sorted module assignments are explored.
 ModIndex(m) == CHOOSE i \in 1 .. 6 : <<"zero", "one", "two", "many", "fail", "code">>[i] = m
@@ -161,7 +162,7 @@ Sorted(F) == IF Gaps = "all" THEN F ELSE {f \in F : \A c \in 1 .. N - 1 : ModInd
 ModChoices(k) ==
     IF Suite = "c17" THEN Sorted([Clients -> {"zero", "one", "many", "fail"}]) \cup {[c \in Clients |-> "code"]}
     ELSE IF Suite = "c17q" THEN Sorted([Clients -> {"zero", "many", "fail"}]) \cup {[c \in Clients |-> "one"], [c \in Clients |-> "code"]}
-    ELSE IF Suite = "c17l" THEN Sorted([Clients -> {"zero", "many", "fail"}])
+    ELSE IF Suite = "c17l" THEN Sorted([Clients -> {"one", "fail"}])
     ELSE IF Suite = "crc" THEN {[c \in Clients |-> "one"]}
     ELSE {[c \in Clients |-> IF k[c] \in ExecKinds THEN "two" ELSE "zero"]}
 \* "after" schedules are sub-behaviours of "overlap" (a client may always arrive late), so model checking needs only
@@ -354,7 +355,7 @@ RecvPayload(c) == sst[c] = "payload" /\ Readable(c).k # "none" /\ S_RecvPayload(
 CrcCheck(c)    == S_CrcCheck(c) /\ UNCHANGED <<scenvars, clientvars>>
 CrcFillEnd(c)  == S_CrcFillEnd(c) /\ UNCHANGED <<scenvars, clientvars>>
 CrcReadEnd(c)  == S_CrcReadEnd(c) /\ UNCHANGED <<scenvars, clientvars>>
-Deserialize(c) == CrcModel = "atomic" /\ S_Deser(c, loaded[c] # "junk") /\ UNCHANGED <<scenvars, clientvars>>
+DeserStep(c)   == CrcModel = "atomic" /\ S_Deser(c, loaded[c] # "junk") /\ UNCHANGED <<scenvars, clientvars>>
 VerifyStep(c)  == S_Verify(c) /\ UNCHANGED <<scenvars, clientvars>>
 Crash(c)       == S_Crash(c) /\ UNCHANGED <<scenvars, clientvars>>
 ExecStep(c)    == (Buffered \/ flushed[c] = pos[c]) /\ S_ExecStep(c, 1) /\ UNCHANGED <<scenvars, clientvars>>
@@ -370,7 +371,7 @@ Cleanup(c)     == S_Cleanup(c) /\ UNCHANGED <<scenvars, clientvars>>
 
 ClientStep(c) == Connect(c) \/ Close(c) \/ Recv(c)
 ServerStep(c) == \/ Accept(c) \/ Enter(c) \/ RecvHdr(c) \/ RecvPayload(c)
-                 \/ CrcCheck(c) \/ CrcFillEnd(c) \/ CrcReadEnd(c) \/ Deserialize(c)
+                 \/ CrcCheck(c) \/ CrcFillEnd(c) \/ CrcReadEnd(c) \/ DeserStep(c)
                  \/ VerifyStep(c) \/ Crash(c) \/ ExecStep(c) \/ Flush(c) \/ ExecEnd(c)
                  \/ SendErr(c) \/ SendExit(c) \/ Pong(c) \/ StatusRead(c) \/ StatusSend(c)
                  \/ CloseFd(c) \/ Cleanup(c)
